@@ -77,7 +77,12 @@ DurMs == << Mk(FALSE, <<6854, 7203, 2233, 9>>), Mk(FALSE, <<6855, 7203, 2233, 9>
             Mk(TRUE, <<4776, 3685, 3720, 9223>>), Mk(FALSE, <<0, 0, 0, 10>>), Mk(TRUE, <<0, 0, 0, 10>>), Mk(FALSE, <<9999, 9999, 9999, 9999>>) >>
 DurRows == << [op |-> "construct", fn |-> "Duration.Duration", name |-> <<"Duration.Duration">>, is |-> DurMs \o LongB] >>
 
-Rows == ParseRows \o NewDecRows \o FloatRows \o DurRows
+Units == <<"Duration.ToDays", "Duration.ToHours", "Duration.ToMinutes", "Duration.ToSeconds", "Duration.ToMilliseconds">>
+UnitRows == [u \in DOMAIN Units |-> [op |-> "construct", fn |-> Units[u], name |-> <<Units[u]>>, is |-> DurMs \o LongB]]
+GoRows == << [op |-> "construct", fn |-> "NewDuration", name |-> <<"NewDuration">>, is |-> DurMs \o LongB],
+             [op |-> "construct", fn |-> "Datetime.Time", name |-> <<"Datetime.Time">>, is |-> DurMs \o LongB] >>
+
+Rows == ParseRows \o NewDecRows \o FloatRows \o DurRows \o UnitRows \o GoRows
 
 VARIABLES row, out
 vars == <<row, out>>
@@ -88,6 +93,9 @@ Expected(r) ==
   IF r.op = "parsetext" THEN [i \in DOMAIN r.texts |-> Obs(SpecRead(r.kind, r.texts[i]))]
   ELSE IF r.fn = "NewDecimal" THEN [i \in DOMAIN r.is |-> Obs(NewDecimalExact(r.is[i], r.e))]
   ELSE IF r.fn = "Duration.Duration" THEN [i \in DOMAIN r.is |-> Obs(DurationToNanos(r.is[i]))]
+  ELSE IF r.fn \in SeqRange(Units) THEN [i \in DOMAIN r.is |-> Obs(DurationToUnit(r.fn, r.is[i]))]
+  ELSE IF r.fn = "NewDuration" THEN [i \in DOMAIN r.is |-> Obs(NewDurationFromNanos(r.is[i]))]
+  ELSE IF r.fn = "Datetime.Time" THEN [i \in DOMAIN r.is |-> Obs(Ok(VDt(r.is[i])))]
   ELSE [i \in DOMAIN r.fs |-> IF r.fs[i].p > 9000 THEN Obs(PFail) ELSE Obs(NewDecimalFromFloatExact(r.fs[i].m, r.fs[i].p))]
 
 Compute == /\ out = <<>>
